@@ -42,6 +42,7 @@ RULE = (
     "export); non-trivial = at least one .vtu compared with >= 2 frames"
 )
 RULE += " A quarter of the multibody runs export a solution whose rigid-body quaternions were rescaled row by row (non-unit quaternions are legal coordinates)."
+RULE += " One run in seven is a standstill (all coordinates constant, prescribed frames keep moving): consecutive frames with bit-identical q."
 RULE += " One run in 53 exports a long animation (1001-1150 frames of one contribution, every instant a frame); file names include ones that are prefixes of each other (a, a_0) and ones with brackets."
 RULE += " Rigid bodies may carry a visual mesh (box, offset / rotated in the body frame; mesh export and base export); time origins are arbitrary (t0 up to 1e5); fault F5b: a contribution whose export raises at its k-th frame, after which later exports on the same Export object must be unaffected."
 COMPONENTS = {
@@ -135,6 +136,20 @@ def gen(rng, tier, index):
         scene["t0"] = float(np.round(rng.uniform(1.0, 60.0), 3))
     elif x < 0.4:
         scene["t0"] = float(rng.choice([1000.0, 20000.0, 123456.0]) + np.round(rng.uniform(0, 1), 2))
+    if index % 7 == 5:
+        # everything with coordinates stands still (no gravity, no loads, no initial velocities): consecutive frames have
+        # bit-identical q, while prescribed frames keep moving and time goes on
+        for b in scene["bodies"]:
+            b["v"] = [0.0, 0.0, 0.0]
+            if b["kind"] == "rigid":
+                b["w"] = [0.0, 0.0, 0.0]
+        scene["gravity"] = [0.0, 0.0, 0.0]
+        scene["forces"], scene["tpis"], scene["laws"] = [], [], []
+        nfr = len(scene["frames"])
+        plan["ops"] = [op for op in plan["ops"] if not any(op["what"].replace("failing:", "").startswith(k) for k in ("force", "tpi", "law"))] + [{"what": f"frame{k}", "file_name": None} for k in range(nfr)]
+        if not plan["ops"]:
+            plan["ops"] = [{"what": "body0", "file_name": None}]
+        plan["standstill"] = True
     if index % 4 == 3:
         # a post-processed solution (or the dense output of an adaptive back end, which is not re-normalised step by
         # step): rigid-body quaternions of non-unit length, which the bodies accept by contract
@@ -364,6 +379,8 @@ def execute(plan, out, log):
                 if hit:
                     sol.q = qs
                     out["probes"]["non_unit_quaternions_exported"] += 1
+            if plan.get("standstill") and len(sol.t) > 1 and all(np.array_equal(sol.q[0], sol.q[i]) for i in range(1, len(sol.t))):
+                out["probes"]["consecutive_frames_with_identical_coordinates"] += 1
             if plan.get("long"):
                 out["probes"]["more_than_1000_frames"] += 1
             folder = "vtk_out"
